@@ -11,4 +11,24 @@ META = {
         note="Trusted: Lean kernel; hand-written codec model (correspondence-checked); Go's io.ReadFull/binary.Read/io.CopyN; allocation measured via runtime.MemStats; split-independence is by io.ReadFull (exercised with 3 split modes, not proved).",
         technique="Lean 4 parser-combinator model with generic encoding/prefix lemmas; differential check against the real codecs",
     ),
+    "C02": dict(
+        text="Lean 4 proofs of capture exactness (apply prev (capture new dirty) = new for all images and covering dirty sets), page bounds and rollback identity at the image level, and of frame properties of the engine model's CommitJournal (refusal without write authority, an invalid journal header publishes nothing); the byte-level Lean engine model is run against the real DB on pager-simulator histories (3 journal modes, spills, rollbacks, grow/shrink across checksum blocks, drop/recreate) and the Lean spec predicates are evaluated on the implementation's own LTX files.",
+        note="Trusted: Lean kernel; hand-written engine model tied by differential correspondence; pager simulator as the description of SQLite; ltx library; CRC64 collision-freedom when comparing images by page checksum. Real SQLite is not run (no FUSE mount in the sandbox).",
+        technique="Lean 4 theorems (image-level capture law + engine-model frame lemmas) + differential check of a byte-level Lean model of db.go against the real DB",
+    ),
+    "C03": dict(
+        text="Lean 4 proofs of WAL capture exactness at the image level and of the engine model's WAL write guards (exclusive WRITE lock required, no write below the capture offset, no complete transaction => nothing captured); byte-level model vs real DB on WAL histories (repeated pages, split writes, rolled-back frames overwritten, restarts with new salts, SQLite/LiteFS checkpoints, shrink across a 256-page block, both checksum byte orders).",
+        note="Trusted: as C02. The WAL scan (buildTxFrameOffsets) is modelled byte for byte and compared, its 'longest valid prefix' characterisation is proved under C17.",
+        technique="Lean 4 theorems + differential check of the byte-level engine model",
+    ),
+    "C04": dict(
+        text="Lean 4 proofs about the checksum-cache model (page slot update, other slots untouched, block invalidation, empty database) and a three-way comparison on every quiescent point of generated histories: implementation's reported checksum = Lean spec checksum of the reference image = from-scratch checksum of the raw files.",
+        note="Trusted: Lean kernel; model of chksums.pages/blocks/wal.chksums tied by correspondence; the full functional-correctness theorem of `checksum` under the cache invariant is stated in DESIGN.md and proved as far as Props/C04.lean goes.",
+        technique="Lean 4 lemmas on the cache model + differential and from-scratch oracle on the real DB",
+    ),
+    "C09": dict(
+        text="Lean 4 proofs that the chain predicate is preserved by append of an extending file, snapshot replacement and prefix removal (retention keeps the newest), and that the engine model's WriteLTXFileAt/Drop only ever add an exact extension or a replacing snapshot; the real log directory is decoded, chain-checked (Lean spec) and integrity-checked (ltx.Decoder.Verify) after every step, with stray temporary files and retention sweeps.",
+        note="Trusted: Lean kernel; engine model tied by correspondence; ltx.Decoder.Verify; harness-set mtimes.",
+        technique="Lean 4 theorems on the chain spec and engine model + differential check with log-directory oracle",
+    ),
 }
